@@ -15,12 +15,18 @@ the well-formedness of every row (`rowWF`: every cell is the first cell of a cha
 that sum to the screen width").
 
 What is proved, and where the boundary is:
-* `blank` policy (grid buffer): `Term.geo` alone is inductive for every token and EVERY width
-  function (`apply_geo_blank`), and so is the full `Scr.inv` (`apply_inv_blank`).
+* Both policies, EVERY width function (characters of any width: U+2E3A is 3 cells, U+2E3B 4 in
+  the real table): the full invariant `Term.wf` (= `Term.inv`: `Scr.inv` on both buffers, equal
+  sizes) is inductive for every token and every resize (`apply_wf`, `resize_wf`, `reachable_wf`,
+  `run_wf`), and every reported cursor position is inside the screen
+  (`cursor_reports_in_range`). No hypothesis on the width function is needed: `Row.putKeep`
+  keeps the row length and `rowWF` for kept / written / cut characters of every width
+  (`putKeep_rowWF`; example with a width-3 character: `keep_policy_width3_keeps_geo`).
+* `blank` policy (grid buffer): even `Term.geo` alone is inductive (`apply_geo_blank`).
 * `keep` policy (span buffer): `Term.geo` alone is NOT inductive
-  (`geo_alone_not_inductive_under_keep`), the full invariant `Term.wf` is, provided the width
-  function never exceeds 2 (`apply_wf`); with a width-3 character the model loses a cell
-  (`keep_policy_width3_breaks_geo`).
+  (`geo_alone_not_inductive_under_keep`); the well-formedness of rows is needed.
+* The earlier formulation (invariant `Term.wfNarrow` = `Term.inv` + "no stored character wider
+  than 2" under the hypothesis `WidthOK`) is kept as the corollary `apply_wfNarrow`.
 * The model has no `Line/StyledLine/ANSILine` accessors, so their agreement is not stated here.
 -/
 namespace TM
@@ -37,21 +43,29 @@ def Term.geo (t : Term) : Prop :=
 instance (s : Scr) : Decidable s.geo := by unfold Scr.geo; infer_instance
 instance (t : Term) : Decidable t.geo := by unfold Term.geo; infer_instance
 
-/-- every character stored in the grid is at most 2 cells wide -/
-def Scr.narrow (s : Scr) : Prop :=
-  ∀ r ∈ s.grid, ∀ t w st, (⟨.ch t w, st⟩ : Cell) ∈ r → w ≤ 2
-
 /-- the full invariant `Scr.inv` (geometry and well-formed rows) on both buffers, same size -/
 def Term.inv (t : Term) : Prop :=
   t.main.inv = true ∧ t.alt.inv = true ∧ t.main.w = t.alt.w ∧ t.main.h = t.alt.h
 
-/-- the invariant of reachable states: `Term.inv`, and under the `keep` policy (span buffer) no
-    stored character is wider than 2 cells -/
-def Term.wf (t : Term) : Prop :=
+/-- the invariant of reachable states. It is `Term.inv`, for both policies and every width
+    function. (Until `Row.putKeep` was made right for kept characters of every width it carried,
+    under the `keep` policy, the extra component "no stored character is wider than 2 cells" —
+    now `Term.wfNarrow` — and the theorems took the hypothesis `WidthOK`, which is false for the
+    width table of the real terminal: U+2E3A is 3 cells wide, U+2E3B 4.) -/
+def Term.wf (t : Term) : Prop := t.inv
+
+/-- every character stored in the grid is at most 2 cells wide -/
+def Scr.narrow (s : Scr) : Prop :=
+  ∀ r ∈ s.grid, ∀ t w st, (⟨.ch t w, st⟩ : Cell) ∈ r → w ≤ 2
+
+/-- the earlier, stronger invariant: `Term.inv`, and under the `keep` policy (span buffer) no
+    stored character is wider than 2 cells. Still preserved when the width function is bounded
+    by 2 (`apply_wfNarrow`), but no longer needed for anything. -/
+def Term.wfNarrow (t : Term) : Prop :=
   t.inv ∧ (t.pol = .keep → t.main.narrow ∧ t.alt.narrow)
 
-/-- the assumption on the width function: under the `keep` policy widths are at most 2 (what
-    `go-runewidth` returns); nothing is assumed under the `blank` policy -/
+/-- an assumption on the width function that is NOT needed any more by the invariant theorems
+    (and is false for the real width table): under the `keep` policy widths are at most 2 -/
 def WidthOK (pol : WidePolicy) (cw : Nat → Nat) : Prop := pol = .keep → ∀ cp, cw cp ≤ 2
 
 end TM
@@ -645,7 +659,7 @@ theorem ok_dch {B : Nat → Prop} (hB1 : B 1) {r : Row} (h : okRow B r) (x n : N
   · obtain ⟨o, ca, cb⟩ := ok_blankStraddlers hB1 h x (x + min n (r.length - x)) st
     exact ok_append (ok_append (ok_take o ca) (ok_drop o cb)) (ok_blanks hB1 _ st)
 
-/-! ### `fixTail`, `Row.putKeep` -/
+/-! ### `fixTail` (no longer used by the model) -/
 
 @[simp] theorem fixTail_length (r : Row) (st : Style) : (fixTail r st).length = r.length := by
   unfold fixTail
@@ -657,86 +671,6 @@ theorem ok_dch {B : Nat → Prop} (hB1 : B 1) {r : Row} (h : okRow B r) (x n : N
       simp; omega
     · rfl
   · rfl
-
-/-- cutting a well-formed row of characters of width ≤ 2 at an arbitrary column and repairing
-    the last cell with `fixTail` gives a well-formed row -/
-theorem ok_fixTail_take {B : Nat → Prop} (hB1 : B 1) (hB2 : ∀ w, B w → w ≤ 2) {r : Row}
-    (h : okRow B r) {W : Nat} (hW1 : 1 ≤ W) (hW : W ≤ r.length) (st : Style) :
-    okRow B (fixTail (r.take W) st) := by
-  by_cases hc : contAt r W = true
-  · have hWl := contAt_lt hc
-    obtain ⟨t, cw, st', hhd, h1, h2, h3, h4, h5⟩ := wf_head h.1 hWl
-    have hle := headOf_le r W
-    have hne : headOf r W ≠ W := by intro e; rw [e] at h4; rw [h4] at hc; cases hc
-    have hcw : cw ≤ 2 := hB2 _ (h.2 t cw st' (List.mem_of_getElem? hhd))
-    have hhdeq : headOf r W = W - 1 := by omega
-    have hcw2 : cw = 2 := by omega
-    subst hcw2
-    rw [hhdeq] at hhd h4
-    have hlast : (r.take W).getLast? = some ⟨.ch t 2, st'⟩ := by
-      rw [List.getLast?_eq_getElem?, List.length_take, Nat.min_eq_left hW, List.getElem?_take,
-        if_pos (by omega), hhd]
-    unfold fixTail
-    rw [hlast]
-    simp only [show (2 : Nat) > 1 by omega, if_true]
-    rw [List.dropLast_eq_take, List.take_take, List.length_take, Nat.min_eq_left hW,
-      Nat.min_eq_left (by omega)]
-    exact ok_append (ok_take h h4) (ok_blanks hB1 1 st)
-  · have hc' : contAt r W = false := by simpa using hc
-    have o3 := ok_take h hc' (n := W)
-    have hl3 : (r.take W).length = W := by rw [List.length_take]; omega
-    have : fixTail (r.take W) st = r.take W := by
-      unfold fixTail
-      split
-      · next t cw st' hlast =>
-        rw [List.getLast?_eq_getElem?, hl3] at hlast
-        obtain ⟨_, b, _, _⟩ := ((rowWF_iff _).1 o3.1).2 _ t cw st' hlast
-        rw [hl3] at b
-        rw [if_neg (by omega)]
-      · rfl
-    rw [this]; exact o3
-
-/-- `Row.putKeep` on a well-formed row of characters of width ≤ 2, called on a continuation
-    cell with the new character fitting in the row: the result is well formed, has the same
-    length, and the kept character ends inside the row, after the cursor -/
-theorem ok_putKeep {B : Nat → Prop} (hB1 : B 1) (hB2 : ∀ w, B w → w ≤ 2) {r : Row}
-    (h : okRow B r) {x w : Nat} (t : Bytes) (st : Style) (hc : contAt r x = true) (hw : 1 ≤ w)
-    (hxw : x + w ≤ r.length) (hBw : B w) :
-    okRow B (r.putKeep x t w st) ∧ (r.putKeep x t w st).length = r.length ∧
-      x < headOf r x + widthAt r (headOf r x) ∧
-      headOf r x + widthAt r (headOf r x) ≤ r.length ∧ 0 < x := by
-  have hx : x < r.length := contAt_lt hc
-  obtain ⟨tt, cw, st', hhd, h1, h2, h3, h4, h5⟩ := wf_head h.1 hx
-  have hwd : widthAt r (headOf r x) = cw := by rw [widthAt_ch hhd]; omega
-  have hle := headOf_le r x
-  have hx0 : 0 < x := by
-    false_or_by_contra
-    have : x = 0 := by omega
-    subst this
-    rw [((rowWF_iff r).1 h.1).1] at hc; cases hc
-  have R1 : ∃ r1, (if contAt r (x + w) = true then blankCharAt r (x + w) st else r) = r1 ∧
-      okRow B r1 ∧ r1.length = r.length ∧ contAt r1 (x + w) = false ∧
-      contAt r1 (headOf r x + cw) = false := by
-    by_cases hq : contAt r (x + w) = true
-    · rw [if_pos hq]
-      obtain ⟨o1, c1, m1⟩ := ok_blankCharAt hB1 h (x + w) st
-      refine ⟨_, rfl, o1, by simp, c1, ?_⟩
-      cases hz : contAt (blankCharAt r (x + w) st) (headOf r x + cw) with
-      | false => rfl
-      | true => rw [m1 _ hz] at h5; cases h5
-    · rw [if_neg hq]; exact ⟨_, rfl, h, rfl, by simpa using hq, h5⟩
-  obtain ⟨r1, e1, o1, l1, c1, c2⟩ := R1
-  have o2 : okRow B (r1.take (headOf r x + cw) ++ charCells t w st ++ r1.drop (x + w)) :=
-    ok_append (ok_append (ok_take o1 c2) (ok_charCells hw hBw)) (ok_drop o1 c1)
-  have l2 : r.length ≤ (r1.take (headOf r x + cw) ++ charCells t w st ++ r1.drop (x + w)).length := by
-    simp only [List.length_append, List.length_take, List.length_drop, charCells_length, l1]
-    omega
-  have hfin := ok_fixTail_take hB1 hB2 o2 (W := r.length) (by omega) l2 st
-  unfold Row.putKeep
-  simp only [hwd, e1]
-  refine ⟨hfin, ?_, h2, h3, hx0⟩
-  rw [fixTail_length, List.length_take]
-  omega
 
 /-! ### `fitRow` -/
 
@@ -782,6 +716,68 @@ theorem ok_fitRow {B : Nat → Prop} (hB1 : B 1) {r : Row} (h : okRow B r) (w : 
     · exact ok_take h hc'
     · exact ok_append h (ok_blanks hB1 _ st)
 
+/-! ### `cutRow`, `Row.putKeep` -/
+
+/-- a row at least `W` long cut back to `W` cells is `fitRow` -/
+theorem cutRow_eq_fitRow {r : Row} {W : Nat} (st : Style) (h : W ≤ r.length) :
+    cutRow r W st = fitRow r W st := by
+  unfold cutRow fitRow
+  rw [if_pos (show r.length ≥ W from h)]
+
+theorem cutRow_length {r : Row} {W : Nat} (st : Style) (h : W ≤ r.length) :
+    (cutRow r W st).length = W := by
+  rw [cutRow_eq_fitRow st h, fitRow_length]
+
+/-- `Row.putKeep` on a well-formed row (characters of ANY width), called on a continuation
+    cell with the new character fitting in the row: the result is well formed, has the same
+    length, and the kept character ends inside the row, after the cursor -/
+theorem ok_putKeep {B : Nat → Prop} (hB1 : B 1) {r : Row}
+    (h : okRow B r) {x w : Nat} (t : Bytes) (st : Style) (hc : contAt r x = true) (hw : 1 ≤ w)
+    (hxw : x + w ≤ r.length) (hBw : B w) :
+    okRow B (r.putKeep x t w st) ∧ (r.putKeep x t w st).length = r.length ∧
+      x < headOf r x + widthAt r (headOf r x) ∧
+      headOf r x + widthAt r (headOf r x) ≤ r.length ∧ 0 < x := by
+  have hx : x < r.length := contAt_lt hc
+  obtain ⟨tt, cw, st', hhd, h1, h2, h3, h4, h5⟩ := wf_head h.1 hx
+  have hwd : widthAt r (headOf r x) = cw := by rw [widthAt_ch hhd]; omega
+  have hle := headOf_le r x
+  have hx0 : 0 < x := by
+    false_or_by_contra
+    have : x = 0 := by omega
+    subst this
+    rw [((rowWF_iff r).1 h.1).1] at hc; cases hc
+  have R1 : ∃ r1, (if contAt r (x + w) = true then blankCharAt r (x + w) st else r) = r1 ∧
+      okRow B r1 ∧ r1.length = r.length ∧ contAt r1 (x + w) = false := by
+    by_cases hq : contAt r (x + w) = true
+    · rw [if_pos hq]
+      obtain ⟨o1, c1, m1⟩ := ok_blankCharAt hB1 h (x + w) st
+      exact ⟨_, rfl, o1, by simp, c1⟩
+    · rw [if_neg hq]; exact ⟨_, rfl, h, rfl, by simpa using hq⟩
+  obtain ⟨r1, e1, o1, l1, c1⟩ := R1
+  have T : ∃ tail, (if x + w < headOf r x + cw
+        then List.replicate (headOf r x + cw - (x + w)) (blank st) ++ r.drop (headOf r x + cw)
+        else r1.drop (x + w)) = tail ∧ okRow B tail ∧
+      r.length ≤ headOf r x + cw + w + tail.length := by
+    by_cases hq : x + w < headOf r x + cw
+    · rw [if_pos hq]
+      refine ⟨_, rfl, ok_append (ok_blanks hB1 _ st) (ok_drop h h5), ?_⟩
+      simp only [List.length_append, List.length_replicate, List.length_drop]
+      omega
+    · rw [if_neg hq]
+      refine ⟨_, rfl, ok_drop o1 c1, ?_⟩
+      simp only [List.length_drop, l1]
+      omega
+  obtain ⟨tail, e2, o2, l2⟩ := T
+  have o3 : okRow B (r.take (headOf r x + cw) ++ charCells t w st ++ tail) :=
+    ok_append (ok_append (ok_take h h5) (ok_charCells hw hBw)) o2
+  have l3 : r.length ≤ (r.take (headOf r x + cw) ++ charCells t w st ++ tail).length := by
+    simp only [List.length_append, List.length_take, charCells_length]
+    omega
+  unfold Row.putKeep
+  simp only [hwd, e1, e2]
+  rw [cutRow_eq_fitRow st l3]
+  exact ⟨ok_fitRow hB1 o3 _ st, fitRow_length .., h2, h3, hx0⟩
+
 theorem ok_blankRow {B : Nat → Prop} (hB1 : B 1) (w : Nat) (st : Style) : okRow B (blankRow w st) :=
   ok_blanks hB1 w st
 
@@ -804,14 +800,13 @@ structure RowInv (pol : WidePolicy) (Wd : Nat → Prop) (P : Row → Prop) : Pro
   fit : ∀ {r : Row}, P r → ∀ w st, P (fitRow r w st)
 
 /-- well-formed rows with widths in `B` -/
-theorem rowInv_ok (pol : WidePolicy) (B : Nat → Prop) (hB1 : B 1)
-    (hB2 : pol = .keep → ∀ w, B w → w ≤ 2) : RowInv pol B (okRow B) where
+theorem rowInv_ok (pol : WidePolicy) (B : Nat → Prop) (hB1 : B 1) : RowInv pol B (okRow B) where
   one := hB1
   blank := fun w st => ok_blankRow hB1 w st
   erase := fun h a b st => ok_erase hB1 h a b st
   dch := fun h x n st => ok_dch hB1 h x n st
   put := fun h t st hw hxw hBw => ok_put hB1 h t st hw hxw hBw
-  putKeep := fun hp _ _ _ h t st hc hw hxw hBw => ok_putKeep hB1 (hB2 hp) h t st hc hw hxw hBw
+  putKeep := fun _ _ _ _ h t st hc hw hxw hBw => ok_putKeep hB1 h t st hc hw hxw hBw
   fit := fun h w st => ok_fitRow hB1 h w st
 
 /-- under the `blank` policy the trivial row invariant will do (lengths are kept by every row
@@ -1038,8 +1033,8 @@ theorem keeps_putFinish (I : RowInv pol Wd P) {s0 s2 : Scr} (hk : Keeps P s0 s2)
     · exact keeps_lineDown I (keeps_cx hk hx)
     · exact keeps_cx hk (by omega)
 
-/-- printable characters keep the screen invariant: under the `blank` policy for every width
-    (`B` arbitrary), under the `keep` policy when all widths are at most 2 -/
+/-- printable characters keep the screen invariant, under both policies, for every width allowed
+    by the row invariant (`Wd` arbitrary) -/
 theorem keeps_put (I : RowInv pol Wd P) {s0 s : Scr} (hk : Keeps P s0 s)
     (text0 : Bytes) (w0 : Nat) (hBw : Wd (max w0 1)) :
     Keeps P s0 (Scr.put pol s text0 w0) := by
@@ -1342,7 +1337,7 @@ def Bof (pol : WidePolicy) : Nat → Prop := fun w => pol = .keep → w ≤ 2
 theorem Bof_one (pol : WidePolicy) : Bof pol 1 := fun _ => by omega
 
 theorem rowInv_Bof (pol : WidePolicy) : RowInv pol (Bof pol) (okRow (Bof pol)) :=
-  rowInv_ok pol _ (Bof_one pol) (fun hp _ hw => hw hp)
+  rowInv_ok pol _ (Bof_one pol)
 
 theorem sok_iff (B : Nat → Prop) (s : Scr) :
     SOk (okRow B) s ↔ s.inv = true ∧ ∀ r ∈ s.grid, ∀ t w st, (⟨.ch t w, st⟩ : Cell) ∈ r → B w := by
@@ -1355,8 +1350,22 @@ theorem sok_iff (B : Nat → Prop) (s : Scr) :
   · rintro ⟨⟨⟨⟨⟨⟨⟨⟨⟨⟨a, b⟩, c⟩, d⟩, e⟩, f⟩, g⟩, i⟩, j⟩, k⟩, o⟩
     exact ⟨⟨a, b, c, fun r m => (d r m).1, e, f, g, i, j, k⟩, fun r m => ⟨(d r m).2, o r m⟩⟩
 
-theorem wf_iff (t : Term) : t.wf ↔ TOk (okRow (Bof t.pol)) t := by
+/-- no condition on widths -/
+def Top : Nat → Prop := fun _ => True
+
+theorem rowInv_top (pol : WidePolicy) : RowInv pol Top (okRow Top) := rowInv_ok pol _ trivial
+
+theorem wf_iff (t : Term) : t.wf ↔ TOk (okRow Top) t := by
   unfold Term.wf Term.inv TOk
+  rw [sok_iff, sok_iff]
+  constructor
+  · rintro ⟨a, b, c, d⟩
+    exact ⟨⟨a, fun _ _ _ _ _ _ => trivial⟩, ⟨b, fun _ _ _ _ _ _ => trivial⟩, c, d⟩
+  · rintro ⟨⟨a, _⟩, ⟨b, _⟩, c, d⟩
+    exact ⟨a, b, c, d⟩
+
+theorem wfNarrow_iff (t : Term) : t.wfNarrow ↔ TOk (okRow (Bof t.pol)) t := by
+  unfold Term.wfNarrow Term.inv TOk
   rw [sok_iff, sok_iff]
   unfold Scr.narrow Bof
   constructor
@@ -1369,9 +1378,13 @@ theorem wf_iff (t : Term) : t.wf ↔ TOk (okRow (Bof t.pol)) t := by
 
 theorem tok_geo {P : Row → Prop} {t : Term} (h : TOk P t) : t.geo := ⟨h.1.1, h.2.1.1, h.2.2⟩
 
-theorem good_apply_wf (cw : Nat → Nat) (t : Term) (hcw : WidthOK t.pol cw) (h : t.wf) (tok : Tok) :
-    Good (okRow (Bof t.pol)) t (t.apply cw tok) := by
-  apply good_apply (rowInv_Bof t.pol) cw _ ((wf_iff t).1 h)
+theorem good_apply_wf (cw : Nat → Nat) (t : Term) (h : t.wf) (tok : Tok) :
+    Good (okRow Top) t (t.apply cw tok) :=
+  good_apply (rowInv_top t.pol) cw (fun _ => trivial) ((wf_iff t).1 h) tok
+
+theorem good_apply_wfNarrow (cw : Nat → Nat) (t : Term) (hcw : WidthOK t.pol cw) (h : t.wfNarrow)
+    (tok : Tok) : Good (okRow (Bof t.pol)) t (t.apply cw tok) := by
+  apply good_apply (rowInv_Bof t.pol) cw _ ((wfNarrow_iff t).1 h)
   intro cp hp
   have := hcw hp cp
   omega
@@ -1382,7 +1395,7 @@ open Lemmas
 /-! ## 1. the initial state -/
 
 theorem init_wf (pol : WidePolicy) (w h : Nat) (hw : 1 ≤ w) (hh : 1 ≤ h) : (Term.init pol w h).wf :=
-  (wf_iff _).2 ⟨sok_init (rowInv_Bof pol) w h hw hh, sok_init (rowInv_Bof pol) w h hw hh, rfl, rfl⟩
+  (wf_iff _).2 ⟨sok_init (rowInv_top pol) w h hw hh, sok_init (rowInv_top pol) w h hw hh, rfl, rfl⟩
 
 theorem init_geo (pol : WidePolicy) (w h : Nat) (hw : 1 ≤ w) (hh : 1 ≤ h) : (Term.init pol w h).geo :=
   tok_geo ((wf_iff _).1 (init_wf pol w h hw hh))
@@ -1391,30 +1404,44 @@ theorem init_geo (pol : WidePolicy) (w h : Nat) (hw : 1 ≤ w) (hh : 1 ≤ h) : 
 theorem wf_geo {t : Term} (h : t.wf) : t.geo := tok_geo ((wf_iff t).1 h)
 
 /-- … and `Scr.inv` for both buffers -/
-theorem wf_inv {t : Term} (h : t.wf) : t.main.inv = true ∧ t.alt.inv = true := ⟨h.1.1, h.1.2.1⟩
+theorem wf_inv {t : Term} (h : t.wf) : t.main.inv = true ∧ t.alt.inv = true := ⟨h.1, h.2.1⟩
 
 /-! ## 2. every token -/
 
 /-- Every token — text of any bytes and any width, every control, every CSI with arbitrary
     parameters, OSC, DCS, ESC — keeps the invariant of reachable states: `Scr.inv` on both
-    buffers, equal sizes (and, for the span buffer, widths ≤ 2). Under the `blank` policy the
-    width function is arbitrary; under `keep` it must not exceed 2 (see
-    `keep_policy_width3_breaks_geo` for why). -/
-theorem apply_wf (cw : Nat → Nat) (t : Term) (hcw : WidthOK t.pol cw) (h : t.wf) (tok : Tok) :
+    buffers, equal sizes. Under BOTH policies the width function is arbitrary (characters of
+    width 3, 4, … included). -/
+theorem apply_wf (cw : Nat → Nat) (t : Term) (h : t.wf) (tok : Tok) :
     (t.apply cw tok).1.wf := by
-  obtain ⟨a, _, _, d, _⟩ := good_apply_wf cw t hcw h tok
-  rw [wf_iff, d]; exact a
+  obtain ⟨a, _, _, d, _⟩ := good_apply_wf cw t h tok
+  rw [wf_iff]; exact a
 
 /-- the geometric invariant after every token -/
-theorem apply_geo (cw : Nat → Nat) (t : Term) (hcw : WidthOK t.pol cw) (h : t.wf) (tok : Tok) :
-    (t.apply cw tok).1.geo := wf_geo (apply_wf cw t hcw h tok)
+theorem apply_geo (cw : Nat → Nat) (t : Term) (h : t.wf) (tok : Tok) :
+    (t.apply cw tok).1.geo := wf_geo (apply_wf cw t h tok)
+
+/-- `Scr.inv` of both buffers is preserved by every token, for EVERY width function and both
+    policies (`Term.wf` spelled out) -/
+theorem apply_inv (cw : Nat → Nat) (t : Term) (h : t.inv) (tok : Tok) : (t.apply cw tok).1.inv :=
+  apply_wf cw t h tok
+
+/-- the earlier, stronger invariant is still preserved when the width function is bounded by 2
+    under the `keep` policy: then no stored character is ever wider than 2 cells -/
+theorem apply_wfNarrow (cw : Nat → Nat) (t : Term) (hcw : WidthOK t.pol cw) (h : t.wfNarrow)
+    (tok : Tok) : (t.apply cw tok).1.wfNarrow := by
+  obtain ⟨a, _, _, d, _⟩ := good_apply_wfNarrow cw t hcw h tok
+  rw [wfNarrow_iff, d]; exact a
+
+/-- the earlier invariant implies the present one -/
+theorem wfNarrow_wf {t : Term} (h : t.wfNarrow) : t.wf := h.1
 
 /-- grid buffer (`blank` policy): `Scr.inv` of both buffers is preserved by every token for
-    EVERY width function -/
-theorem apply_inv_blank (cw : Nat → Nat) (t : Term) (hp : t.pol = .blank) (h : t.inv) (tok : Tok) :
+    EVERY width function (special case of `apply_inv`; the hypothesis on the policy is not
+    needed any more) -/
+theorem apply_inv_blank (cw : Nat → Nat) (t : Term) (_hp : t.pol = .blank) (h : t.inv) (tok : Tok) :
     (t.apply cw tok).1.inv :=
-  (apply_wf cw t (fun hk => by rw [hp] at hk; cases hk) ⟨h, fun hk => by rw [hp] at hk; cases hk⟩
-    tok).1
+  apply_wf cw t h tok
 
 /-- grid buffer (`blank` policy): the geometric invariant ALONE is preserved by every token, for
     EVERY width function and from EVERY state satisfying it (rows well formed or not); and the
@@ -1433,11 +1460,11 @@ theorem apply_geo_blank (cw : Nat → Nat) (t : Term) (hp : t.pol = .blank) (h :
   exact e
 
 /-- tokens never change the size of either buffer nor the policy -/
-theorem apply_size (cw : Nat → Nat) (t : Term) (hcw : WidthOK t.pol cw) (h : t.wf) (tok : Tok) :
+theorem apply_size (cw : Nat → Nat) (t : Term) (h : t.wf) (tok : Tok) :
     let t' := (t.apply cw tok).1
     t'.main.w = t.main.w ∧ t'.main.h = t.main.h ∧ t'.alt.w = t.alt.w ∧ t'.alt.h = t.alt.h ∧
       t'.scr.w = t.scr.w ∧ t'.scr.h = t.scr.h ∧ t'.pol = t.pol := by
-  obtain ⟨a, b, c, d, _⟩ := good_apply_wf cw t hcw h tok
+  obtain ⟨a, b, c, d, _⟩ := good_apply_wf cw t h tok
   have h0 := (wf_iff t).1 h
   obtain ⟨_, e1, e2⟩ := scr_ok a
   obtain ⟨_, f1, f2⟩ := scr_ok h0
@@ -1458,8 +1485,8 @@ theorem resize_wf (t : Term) (w h : Nat) (hw : 1 ≤ w) (hh : 1 ≤ h) (ht : t.w
     (t.resize w h).1.wf := by
   have h0 := (wf_iff t).1 ht
   rw [wf_iff]
-  exact ⟨sok_resize (rowInv_Bof t.pol) t.main h0.1.2 w h hw hh,
-    sok_resize (rowInv_Bof t.pol) t.alt h0.2.1.2 w h hw hh, rfl, rfl⟩
+  exact ⟨sok_resize (rowInv_top t.pol) t.main h0.1.2 w h hw hh,
+    sok_resize (rowInv_top t.pol) t.alt h0.2.1.2 w h hw hh, rfl, rfl⟩
 
 /-! ## 4. every reachable state -/
 
@@ -1479,36 +1506,36 @@ def Op.step (cw : Nat → Nat) (t : Term) : Op → Term
 
 def runOps (cw : Nat → Nat) (t : Term) (ops : List Op) : Term := ops.foldl (Op.step cw) t
 
-theorem step_wf (cw : Nat → Nat) (t : Term) (hcw : WidthOK t.pol cw) (h : t.wf) (op : Op)
+theorem step_wf (cw : Nat → Nat) (t : Term) (h : t.wf) (op : Op)
     (hv : op.valid) : (op.step cw t).wf ∧ (op.step cw t).pol = t.pol := by
   cases op with
-  | tok k => exact ⟨apply_wf cw t hcw h k, (apply_size cw t hcw h k).2.2.2.2.2.2⟩
+  | tok k => exact ⟨apply_wf cw t h k, (apply_size cw t h k).2.2.2.2.2.2⟩
   | resize w h' => exact ⟨resize_wf t w h' hv.1 hv.2 h, rfl⟩
 
-theorem runOps_wf (cw : Nat → Nat) (t : Term) (hcw : WidthOK t.pol cw) (h : t.wf) (ops : List Op)
+theorem runOps_wf (cw : Nat → Nat) (t : Term) (h : t.wf) (ops : List Op)
     (hv : ∀ op ∈ ops, op.valid) : (runOps cw t ops).wf ∧ (runOps cw t ops).pol = t.pol := by
   induction ops generalizing t with
   | nil => exact ⟨h, rfl⟩
   | cons op ops ih =>
-    obtain ⟨h1, p1⟩ := step_wf cw t hcw h op (hv op (List.mem_cons_self))
-    have := ih (op.step cw t) (by rw [p1]; exact hcw) h1 (fun o ho => hv o (List.mem_cons_of_mem _ ho))
+    obtain ⟨h1, p1⟩ := step_wf cw t h op (hv op (List.mem_cons_self))
+    have := ih (op.step cw t) h1 (fun o ho => hv o (List.mem_cons_of_mem _ ho))
     simp only [runOps, List.foldl_cons] at this ⊢
     exact ⟨this.1, this.2.trans p1⟩
 
 /-- Every state reachable from the initial state by tokens and resizes (to positive sizes), in
     any order, satisfies the invariant (`Scr.inv` on both buffers). -/
-theorem reachable_wf (cw : Nat → Nat) (pol : WidePolicy) (w h : Nat) (hcw : WidthOK pol cw)
+theorem reachable_wf (cw : Nat → Nat) (pol : WidePolicy) (w h : Nat) 
     (hw : 1 ≤ w) (hh : 1 ≤ h) (ops : List Op) (hv : ∀ op ∈ ops, op.valid) :
     (runOps cw (Term.init pol w h) ops).wf :=
-  (runOps_wf cw _ hcw (init_wf pol w h hw hh) ops hv).1
+  (runOps_wf cw _ (init_wf pol w h hw hh) ops hv).1
 
 /-- … in particular the geometric invariant holds after every prefix of the operations -/
-theorem reachable_geo (cw : Nat → Nat) (pol : WidePolicy) (w h : Nat) (hcw : WidthOK pol cw)
+theorem reachable_geo (cw : Nat → Nat) (pol : WidePolicy) (w h : Nat) 
     (hw : 1 ≤ w) (hh : 1 ≤ h) (ops : List Op) (hv : ∀ op ∈ ops, op.valid) (n : Nat) :
     (runOps cw (Term.init pol w h) (ops.take n)).geo :=
-  wf_geo (reachable_wf cw pol w h hcw hw hh _ (fun o ho => hv o (List.mem_of_mem_take ho)))
+  wf_geo (reachable_wf cw pol w h hw hh _ (fun o ho => hv o (List.mem_of_mem_take ho)))
 
-theorem runFuel_wf (cw : Nat → Nat) (fuel : Nat) (t : Term) (hcw : WidthOK t.pol cw) (h : t.wf)
+theorem runFuel_wf (cw : Nat → Nat) (fuel : Nat) (t : Term) (h : t.wf)
     (bs : Bytes) (evs : List Ev) :
     (runFuel cw fuel t bs evs).1.wf ∧ (runFuel cw fuel t bs evs).1.pol = t.pol := by
   induction fuel generalizing t bs evs with
@@ -1518,20 +1545,20 @@ theorem runFuel_wf (cw : Nat → Nat) (fuel : Nat) (t : Term) (hcw : WidthOK t.p
     split
     · exact ⟨h, rfl⟩
     · next tk n _ =>
-      have p1 := (apply_size cw t hcw h tk).2.2.2.2.2.2
-      have := ih (t.apply cw tk).1 (by rw [p1]; exact hcw) (apply_wf cw t hcw h tk) (bs.drop n)
+      have p1 := (apply_size cw t h tk).2.2.2.2.2.2
+      have := ih (t.apply cw tk).1 (apply_wf cw t h tk) (bs.drop n)
         (evs ++ (t.apply cw tk).2)
       exact ⟨this.1, this.2.trans p1⟩
 
 /-- the read loop: after processing any byte string the invariant holds -/
-theorem run_wf (cw : Nat → Nat) (t : Term) (hcw : WidthOK t.pol cw) (h : t.wf) (bs : Bytes) :
-    (run cw t bs).1.wf := (runFuel_wf cw _ t hcw h bs []).1
+theorem run_wf (cw : Nat → Nat) (t : Term) (h : t.wf) (bs : Bytes) :
+    (run cw t bs).1.wf := (runFuel_wf cw _ t h bs []).1
 
-theorem run_geo (cw : Nat → Nat) (t : Term) (hcw : WidthOK t.pol cw) (h : t.wf) (bs : Bytes) :
-    (run cw t bs).1.geo := wf_geo (run_wf cw t hcw h bs)
+theorem run_geo (cw : Nat → Nat) (t : Term) (h : t.wf) (bs : Bytes) :
+    (run cw t bs).1.geo := wf_geo (run_wf cw t h bs)
 
-theorem run_pol (cw : Nat → Nat) (t : Term) (hcw : WidthOK t.pol cw) (h : t.wf) (bs : Bytes) :
-    (run cw t bs).1.pol = t.pol := (runFuel_wf cw _ t hcw h bs []).2
+theorem run_pol (cw : Nat → Nat) (t : Term) (h : t.wf) (bs : Bytes) :
+    (run cw t bs).1.pol = t.pol := (runFuel_wf cw _ t h bs []).2
 
 /-- grid buffer: the read loop keeps the geometric invariant alone, for every width function -/
 theorem run_geo_blank (cw : Nat → Nat) (t : Term) (hp : t.pol = .blank) (h : t.geo) (bs : Bytes) :
@@ -1555,10 +1582,10 @@ theorem run_geo_blank (cw : Nat → Nat) (t : Term) (hp : t.pol = .blank) (h : t
 
 /-- every cursor position reported to the frontend while processing a token lies inside the
     (new) active screen -/
-theorem cursor_reports_in_range (cw : Nat → Nat) (t : Term) (hcw : WidthOK t.pol cw) (h : t.wf)
+theorem cursor_reports_in_range (cw : Nat → Nat) (t : Term) (h : t.wf)
     (tok : Tok) (x y : Nat) (hm : Ev.cursor x y ∈ (t.apply cw tok).2) :
     x < (t.apply cw tok).1.scr.w ∧ y < (t.apply cw tok).1.scr.h := by
-  obtain ⟨a, b, c, _, e⟩ := good_apply_wf cw t hcw h tok
+  obtain ⟨a, b, c, _, e⟩ := good_apply_wf cw t h tok
   obtain ⟨_, e1, e2⟩ := scr_ok a
   rw [e1, e2, b, c]
   exact e x y hm
@@ -1598,7 +1625,7 @@ theorem wf_row_runs {t : Term} (h : t.wf) (b : Term → Scr) (hb : b = Term.main
       (∀ k, headOf ((b t).row y) x < k → k < headOf ((b t).row y) x + cw →
         contAt ((b t).row y) k = true) := by
   have h0 := (wf_iff t).1 h
-  have hs : SOk (okRow (Bof t.pol)) (b t) := by rcases hb with rfl | rfl; exact h0.1; exact h0.2.1
+  have hs : SOk (okRow Top) (b t) := by rcases hb with rfl | rfl; exact h0.1; exact h0.2.1
   have hm := row_mem hs hy
   have hl := hs.rlen _ hm
   refine ⟨hl, ?_⟩
@@ -1638,14 +1665,13 @@ theorem blankStraddlers_rowWF (r : Row) (a b : Nat) (st : Style) (h : rowWF r = 
   exact ⟨o.1, c1, c2⟩
 
 /-- `Row.putKeep` (span-buffer write on a continuation cell) keeps rows well formed and of the
-    same length when no character is wider than 2 cells.
-    Without the width bound this is false, see `keep_policy_width3_breaks_geo`. -/
+    same length, whatever the widths of the kept character, of the written one, and of the
+    characters the insertion pushes across the right edge -/
 theorem putKeep_rowWF (r : Row) (x : Nat) (t : Bytes) (w : Nat) (st : Style) (h : rowWF r = true)
-    (hn : ∀ t' w' st', (⟨.ch t' w', st'⟩ : Cell) ∈ r → w' ≤ 2) (hc : contAt r x = true)
-    (hw : 1 ≤ w) (hw2 : w ≤ 2) (hxw : x + w ≤ r.length) :
+    (hc : contAt r x = true) (hw : 1 ≤ w) (hxw : x + w ≤ r.length) :
     rowWF (r.putKeep x t w st) = true ∧ (r.putKeep x t w st).length = r.length := by
-  obtain ⟨o, l, _⟩ := ok_putKeep (B := fun w => w ≤ 2) (by omega) (fun _ h => h) ⟨h, hn⟩ t st hc hw
-    hxw hw2
+  obtain ⟨o, l, _⟩ := ok_putKeep (B := fun _ => True) trivial ((okRow_true r).2 h) t st hc hw
+    hxw trivial
   exact ⟨o.1, l⟩
 
 /-- every screen operation used by the dispatcher keeps `Scr.inv` (and the size) -/
@@ -1659,7 +1685,7 @@ theorem scr_ops_inv (s : Scr) (h : s.inv = true) :
   have hs : SOk (okRow (fun _ => True)) s := (sok_iff _ s).2 ⟨h, fun _ _ _ _ _ _ => trivial⟩
   have hk := keeps_refl hs
   have I : RowInv .blank (fun _ => True) (okRow (fun _ => True)) :=
-    rowInv_ok _ _ trivial (fun hp => by cases hp)
+    rowInv_ok _ _ trivial
   have e : ∀ {s' : Scr}, Keeps (okRow (fun _ => True)) s s' → s'.inv = true :=
     fun hk' => ((sok_iff _ _).1 hk'.1).1
   refine ⟨fun _ _ _ => e (keeps_scroll I hk _ _ _), e (keeps_lineDown I hk),
@@ -1669,7 +1695,7 @@ theorem scr_ops_inv (s : Scr) (h : s.inv = true) :
     fun _ _ => e (keeps_put I hk _ _ trivial),
     fun w' h' hw hh => ((sok_iff _ _).1 (sok_resize I s hs.2 w' h' hw hh)).1⟩
 
-/-! ## 7. why the `keep` policy needs widths ≤ 2 -/
+/-! ## 7. characters wider than 2 cells under the `keep` policy; why `geo` alone is not enough -/
 
 /-- a width function with one triple-width character -/
 def cw3 (cp : Nat) : Nat := if cp = 0x57 then 3 else 1
@@ -1679,28 +1705,17 @@ def width3Input : Bytes :=
   [87, 87, 87, 27, 91, 49, 59, 51, 72, 120, 27, 91, 49, 59, 49, 72, 27, 91, 52, 80, 27, 91, 49, 59,
    54, 72, 87, 27, 91, 49, 59, 53, 72, 27, 91, 49, 88, 27, 91, 49, 59, 56, 72, 120]
 
-/-- With a character of width 3 the span-buffer policy (`keep`) of the MODEL does not keep the
-    geometric invariant: after this input on a 9 × 1 terminal the only row has 8 cells. (The
-    same input under the `blank` policy keeps 9 cells, as `apply_inv_blank` guarantees.) So
-    `apply_geo` cannot be stated for an arbitrary width function under `keep`. -/
-theorem keep_policy_width3_breaks_geo :
-    (run cw3 (Term.init .keep 9 1) width3Input).1.main.grid.map List.length = [8] ∧
+/-- With a character of width 3 the span-buffer policy (`keep`) of the model keeps the geometric
+    invariant and `Scr.inv`: after this input on a 9 × 1 terminal the only row has 9 cells under
+    both policies. (With the earlier `Row.putKeep`, right only for kept characters of width 2, the
+    row had 8 cells under `keep`; the theorem `keep_policy_width3_breaks_geo` that recorded this
+    has been replaced by the present one.) -/
+theorem keep_policy_width3_keeps_geo :
+    (run cw3 (Term.init .keep 9 1) width3Input).1.main.grid.map List.length = [9] ∧
     (run cw3 (Term.init .blank 9 1) width3Input).1.main.grid.map List.length = [9] ∧
-    ¬ (run cw3 (Term.init .keep 9 1) width3Input).1.geo := by
-  have h8 : (run cw3 (Term.init .keep 9 1) width3Input).1.main.grid.map List.length = [8] := by
-    decide
-  have hw : (run cw3 (Term.init .keep 9 1) width3Input).1.main.w = 9 := by decide
-  refine ⟨h8, by decide, ?_⟩
-  intro hg
-  have hr := hg.1.2.2.2.1
-  generalize (run cw3 (Term.init .keep 9 1) width3Input).1.main = s at h8 hw hr
-  cases hgr : s.grid with
-  | nil => rw [hgr] at h8; simp at h8
-  | cons r rest =>
-    have := hr r (by rw [hgr]; exact List.mem_cons_self)
-    rw [hgr] at h8
-    simp only [List.map_cons, List.cons.injEq] at h8
-    omega
+    (run cw3 (Term.init .keep 9 1) width3Input).1.geo ∧
+    (run cw3 (Term.init .keep 9 1) width3Input).1.main.inv = true := by
+  refine ⟨by decide, by decide, by decide, by decide⟩
 
 /-- a state that satisfies the geometric invariant but has an ill-formed row (two continuation
     cells after a character of width 1), cursor on the last cell -/
@@ -1728,6 +1743,10 @@ def cw2 (cp : Nat) : Nat := if cp ≥ 0x1100 then 2 else 1
 example : WidthOK .keep cw2 := by intro _ cp; unfold cw2; split <;> omega
 example : WidthOK .blank cw3 := by intro h; cases h
 example : (Term.init .keep 80 24).wf := init_wf _ _ _ (by omega) (by omega)
+-- the invariant along a run with a width-3 character under the span policy (`WidthOK` fails)
+example : ¬ WidthOK .keep cw3 := fun h => by have := h rfl 0x57; simp [cw3] at this
+example : (run cw3 (Term.init .keep 9 1) width3Input).1.wf :=
+  run_wf cw3 _ (init_wf _ _ _ (by omega) (by omega)) _
 
 /-- `a中b`, CUP(1,3), `x` (written on the second cell of the wide character), DCH 1, LF,
     `中中` (wraps / clamps at the right edge), EL 1 -/
@@ -1738,7 +1757,7 @@ def exInput : Bytes :=
 -- a non-trivial reachable state (with double-width characters in the grid) satisfies `wf`,
 -- under both policies, and really contains a continuation cell
 example : (run cw2 (Term.init .keep 4 2) exInput).1.wf :=
-  run_wf cw2 _ (by intro _ cp; unfold cw2; split <;> omega) (init_wf _ _ _ (by omega) (by omega)) _
+  run_wf cw2 _ (init_wf _ _ _ (by omega) (by omega)) _
 example : (run cw2 (Term.init .keep 4 2) exInput).1.main.inv = true := by decide
 example : contAt ((run cw2 (Term.init .blank 4 2) [0x61, 0xe4, 0xb8, 0xad]).1.main.row 0) 2 = true := by
   decide
@@ -1747,7 +1766,7 @@ example : (run cw2 (Term.init .blank 4 2) [0x61, 0xe4, 0xb8, 0xad]).1.main.inv =
 example : Op.valid (.resize 3 1) := ⟨by omega, by omega⟩
 example : (runOps cw2 (Term.init .keep 4 2) [.tok (.text [0xe4, 0xb8, 0xad] 0x4e2d), .resize 1 1,
     .tok (.ctl 10), .resize 7 3]).geo :=
-  reachable_geo cw2 .keep 4 2 (by intro _ cp; unfold cw2; split <;> omega) (by omega) (by omega)
+  reachable_geo cw2 .keep 4 2 (by omega) (by omega)
     [.tok (.text [0xe4, 0xb8, 0xad] 0x4e2d), .resize 1 1, .tok (.ctl 10), .resize 7 3]
     (by intro op hop; simp at hop; rcases hop with rfl | rfl | rfl | rfl <;> simp [Op.valid]) 4
 -- a cursor report is really emitted (the range statement is not vacuous)
@@ -1765,6 +1784,8 @@ end TM.C02
 #print axioms TM.C02.wf_geo
 #print axioms TM.C02.apply_wf
 #print axioms TM.C02.apply_geo
+#print axioms TM.C02.apply_inv
+#print axioms TM.C02.apply_wfNarrow
 #print axioms TM.C02.apply_inv_blank
 #print axioms TM.C02.apply_geo_blank
 #print axioms TM.C02.apply_size
@@ -1786,5 +1807,5 @@ end TM.C02
 #print axioms TM.C02.blankStraddlers_rowWF
 #print axioms TM.C02.putKeep_rowWF
 #print axioms TM.C02.scr_ops_inv
-#print axioms TM.C02.keep_policy_width3_breaks_geo
+#print axioms TM.C02.keep_policy_width3_keeps_geo
 #print axioms TM.C02.geo_alone_not_inductive_under_keep
